@@ -159,7 +159,8 @@ BAD_KEYS = {
     "ipaddr-or-hostname": ["-x", "999.1.1.1", "a"],
 }
 FIXED_SLOT_NAMES = ["main", "aux", "extra"]
-SECTION_NAMES = ["n1", "n2", "N3", "main", "aux", "alpha", "zz"]
+SECTION_NAMES = ["n1", "n2", "N3", "main", "aux", "alpha", "zz",
+                 "Straße", "ΣΊΣΥΦΟΣ", "Maſt", "ÉCOLE"]
 HANDLERS = ["h1", "h2", "H3", "h-4"]
 
 
@@ -417,7 +418,8 @@ def _gen_key_child(rng, cont_kt, used_names, used_attrs, has_wild, counter):
             c["defaults"] = [dval() for _ in range(rng.randint(1, 3))]
         else:
             v = dval()
-            if v != "" and "<" not in v:
+            if "<" not in v:
+                # default="" is a legal (empty) default
                 c["default"] = v
     # a required multikey may still have defaults (they count towards the
     # minimum, statement of C01); rarely generated
